@@ -974,6 +974,21 @@ pub fn run(prop: Prop, args: &Args, seed: u64, tier: &str, report: &Report) -> S
                     }
                 }
             };
+            // clocks and move numbers far beyond normal play are legal too (a game continued past the
+            // fifty-move point, or set up from a FEN): counters must survive make / take-back unchanged
+            let mut root = root;
+            if rng.chance(1, 10) {
+                root.hmc = *rng.pick(&[101u32, 200, 254, 255, 256, 257, 300, 1000, 65_535, 65_536, 1_000_000]);
+                root.fmn = root.fmn.max(root.hmc / 2 + 1 + rng.below(50) as u32);
+                l.feat("root_with_clock_above_100");
+                if root.hmc >= 255 {
+                    l.feat("root_with_clock_ge_255");
+                }
+            }
+            if rng.chance(1, 20) {
+                root.fmn = *rng.pick(&[127u32, 128, 255, 256, 32_767, 32_768, 65_535, 65_536, 1_000_000]);
+                l.feat("root_with_large_move_number");
+            }
             let n_ops = *rng.pick(&[50usize, 100, 200, 400]);
             let max_depth = *rng.pick(&[6usize, 12, 24, 40]);
             if prop == Prop::C03 && w % 4 == 0 {
